@@ -586,6 +586,10 @@ Goals(pre, ev, a, r) ==
          G(ok /\ Cardinality({x \in ASSETS : pre.pool[<<a.o, x>>].ex /\ NIsPos(pre.pool[<<a.o, x>>].amt)}) >= 2, "slash_multi_asset") \cup
          G(ok /\ \E x \in ASSETS : pre.pool[<<a.o, x>>].ex /\ NIsZero(pre.pool[<<a.o, x>>].amt) /\ NIsPos(pre.pool[<<a.o, x>>].pend)
                  /\ \E y \in ASSETS \ {x} : NIsPos(pre.pool[<<a.o, y>>].amt), "slash_pool_fully_unbonding_other_bonded") \cup
+         G(ok /\ NIsPos(pr.p) /\ NLt(pr.p, PREC)
+              /\ \E x \in ASSETS : pre.pool[<<a.o, x>>].ex /\ NIsZero(pre.pool[<<a.o, x>>].amt) /\ NIsPos(pre.pool[<<a.o, x>>].pend)
+                 /\ \E y \in ASSETS \ {x} : NIsPos(pre.pool[<<a.o, y>>].amt), "slash_partial_pool_fully_unbonding_other_bonded") \cup
+         G(ok /\ NIsPos(pr.p) /\ NLt(pr.p, PREC) /\ \E k \in DOMAIN pre.recs : ~NEq(pre.recs[k].actual, post.recs[k].actual), "slash_partial_hits_pending_record") \cup
          G(ok /\ a.infr = pre.h, "slash_infraction_at_current_height") \cup
          G(<<a.o, a.id>> \in pre.sinfo, "slash_replay") \cup
          G(NGt(a.factor, PREC), "slash_factor_above_one") \cup
@@ -615,7 +619,8 @@ AllGoals ==
    "eb_release", "eb_release_two_in_one_block", "eb_release_partly_slashed", "eb_release_fully_slashed",
    "eb_release_native", "eb_requeue_held", "eb_release_after_requeue",
    "slash_partial", "slash_full", "slash_wipes_pool", "slash_hits_pending_record", "slash_record_to_zero",
-   "slash_spares_older_record", "slash_multi_asset", "slash_pool_fully_unbonding_other_bonded",
+   "slash_spares_older_record", "slash_multi_asset", "slash_pool_fully_unbonding_other_bonded", "slash_partial_pool_fully_unbonding_other_bonded",
+   "slash_partial_hits_pending_record",
    "slash_infraction_at_current_height", "slash_replay", "slash_factor_above_one", "slash_zero_value_operator",
    "nst_up", "nst_down_within_withdrawable", "nst_down_ends_inside_pending_records", "nst_down_reaches_shares",
    "nst_down_shares_two_operators", "nst_down_skips_zero_share_row"}
